@@ -1340,7 +1340,7 @@ MANIFEST = dict(
     note='each path is concrete once the solver chose the pattern (fault '
     'enumeration, not a proof); process-kill disk model (no reordering); one '
     'interruption per history; parallel simulation outside'
-    ' Concrete data-representation / scale / boundary probes of the real'
+    '. Concrete data-representation / scale / boundary probes of the real'
     ' code (dtype, container and memory-layout variants, argument'
     ' immutability, magnitudes) accompany the symbolic runs; they are'
     ' differential runs, not solver verdicts.',
